@@ -5,7 +5,9 @@ with product-state merging (real check objects' maps + model maps), depth 10 (qu
 edge is run in 'yield' mode (full comparison incl. first-occurrence back reference), in
 'continue' mode and in 'raise' mode (end-of-data verdict over the rows that reached the check).
 """
+import csv
 import itertools
+import os
 
 from mc import engine, harness, readermachine
 from mc.core import Part
@@ -128,6 +130,27 @@ def judge(case, part):
         expected_end = prediction["close"]
         if (api_raised is None) != (expected_end is None) or (api_raised is not None and api_raised.get("type") != "CheckError"):
             part.fail(tag % ("cutplace.rows-%s-end-of-data-verdict" % mode), case, "CheckError" if expected_end else "no error", api_raised)
+    if len(table) <= 3 and not isinstance(source, str):
+        # the command line: exit code 1 iff a row is rejected or finishing the validation fails
+        from cutplace import applications
+
+        folder = readermachine.tmpdir()
+        cid_path, data_path = os.path.join(folder, "c05_cid_%d.csv" % os.getpid()), os.path.join(folder, "c05_data_%d.txt" % os.getpid())
+        with open(cid_path, "w", newline="", encoding="utf-8") as stream:
+            csv.writer(stream).writerows(readermachine.cid_rows_of(config, decls))
+        with open(data_path, "w", newline="", encoding="cp1252") as stream:
+            stream.write(readermachine.store(config, decls, table)[0].getvalue())
+        try:
+            code = applications.main(["cutplace", cid_path, data_path])
+        except SystemExit as error:
+            code = "exit:%s" % error.code
+        except Exception as error:
+            code = "raised-" + type(error).__name__
+        part.transitions += 1
+        part.validated += 1
+        expected_code = 1 if (first_bad is not None or prediction["close"]) else 0
+        if code != expected_code:
+            part.fail(tag % ("command-line-exit-%s-but-expected-%d" % (code, expected_code)), case, expected_code, code)
     # a reader constructed first, then another complete read of the same data on the same CID, then the first reader
     # is consumed: its verdicts must still be those of its own data set alone
     m = harness.modules()
